@@ -493,3 +493,78 @@ func (c *Ctx) chunkAliasing(rule string) {
 	R.Min(rule, "functions using xslices.Chunk", chunks, 10)
 	_ = appends
 }
+
+// foreignKeysOnEveryConnection (R08.10).
+func (c *Ctx) foreignKeysOnEveryConnection(rule string) {
+	P, R := c.P, c.R
+	R.Explain(rule, "referential actions are enforced on every pooled connection: the data source name given to sql.Open for the sqlite3 driver enables foreign keys (`_fk=1` / `_foreign_keys=…`).  A `PRAGMA foreign_keys = ON` executed through *sql.DB configures only the one connection it happens to run on; statements that later run on another connection of the pool would skip ON DELETE CASCADE / REFERENCES checks, leaving rows of deleted messages and mailboxes behind.")
+	n := 0
+	for _, f := range c.productFuncs() {
+		for _, cs := range engine.Calls(f) {
+			sc := cs.Common().StaticCallee()
+			if sc == nil || engine.ShortName(sc) != "Open" || engine.PkgPathOf(sc) != "database/sql" || len(cs.Common().Args) != 2 {
+				continue
+			}
+			if drv, ok := engine.ConstString(cs.Common().Args[0]); !ok || !strings.Contains(drv, "sqlite") {
+				continue
+			}
+			n++
+			var consts []string
+			seen := map[ssa.Value]bool{}
+			var walk func(v ssa.Value, d int)
+			walk = func(v ssa.Value, d int) {
+				if v == nil || seen[v] || d > 12 {
+					return
+				}
+				seen[v] = true
+				switch t := v.(type) {
+				case *ssa.Const:
+					if s, ok := engine.ConstString(t); ok {
+						consts = append(consts, s)
+					}
+				case *ssa.BinOp:
+					walk(t.X, d+1)
+					walk(t.Y, d+1)
+				case *ssa.Phi:
+					for _, e := range t.Edges {
+						walk(e, d+1)
+					}
+				case *ssa.Call:
+					if g := t.Call.StaticCallee(); g != nil {
+						if len(g.Blocks) > 0 && P.IsOwn(g) {
+							for _, r := range engine.Returns(g) {
+								if len(r.Results) > 0 {
+									walk(engine.ResultOf(r, 0), d+1)
+								}
+							}
+						} else {
+							for _, a := range t.Call.Args {
+								walk(a, d+1)
+							}
+						}
+					}
+				case *ssa.UnOp:
+					if al, ok := t.X.(*ssa.Alloc); ok {
+						for _, st := range engine.StoresTo(al) {
+							walk(st.Val, d+1)
+						}
+					}
+				case *ssa.MakeInterface:
+					walk(t.X, d+1)
+				}
+			}
+			walk(cs.Common().Args[1], 0)
+			on := false
+			for _, s := range consts {
+				ls := strings.ToLower(s)
+				for _, key := range []string{"_fk=1", "_fk=true", "_fk=on", "_fk=yes", "_foreign_keys=1", "_foreign_keys=true", "_foreign_keys=on", "_foreign_keys=yes"} {
+					if strings.Contains(ls, key) {
+						on = true
+					}
+				}
+			}
+			R.Check(on, rule, c.name(f)+"|sql.Open DSN", P.Pos(cs.Pos()), "the DSN enables foreign keys for every connection of the pool", "the data source name does not enable foreign keys: only the connection that happened to run the PRAGMA enforces them, statements on other pooled connections leave orphan rows (flags, mailbox membership) behind deleted messages/mailboxes")
+		}
+	}
+	R.Min(rule, "sql.Open calls for sqlite", n, 1)
+}
